@@ -344,7 +344,13 @@ func webseedMain(rc *RunCtx) {
 					break
 				}
 			}
-			if !rw.hostile && len(got) != len(want) {
+			fresh := !t.Pieces.Complete(uint32(i))
+			for c := c0; c < c1; c++ {
+				if bmBefore.Get(c) {
+					fresh = false // part of the range was there already: the fetch may stop early
+				}
+			}
+			if !rw.hostile && fresh && len(got) != len(want) {
 				rc.Fail("C14", "request-mapping", "incomplete", "fetch of torrent bytes [%d, %d) from an honest server made %d requests, the partition has %d parts: %v", tlo, thi, len(got), len(want), want)
 			}
 			if !rw.hostile {
